@@ -82,12 +82,21 @@ def rule_typestate(rep: Report, repo: Repo):
         raise AnalysisError(RULE, f"{ANCHOR}: no store of an evaluated value into the memo found")
     removals = set(map(id, memo.removals))
 
+    PURE = {"isinstance", "issubclass", "str", "repr", "len", "type", "bool", "id", "hasattr"}
+    PURE_METHODS = {"startswith", "endswith"}
+
     def may_raise(node):
         if id(node) in removals:
             return False
-        if isinstance(node, ast.Delete) and id(node) in removals:
-            return False
-        return default_may_raise(node)
+        if isinstance(node, (ast.Raise, ast.Assert)):
+            return True
+        # calls of side-effect-free builtins on the caught exception / local names cannot raise
+        for n in ast.walk(node):
+            if isinstance(n, (ast.Call, ast.Await, ast.Yield, ast.YieldFrom)):
+                if isinstance(n, ast.Call) and (call_name(n) in PURE or (isinstance(n.func, ast.Attribute) and n.func.attr in PURE_METHODS)):
+                    continue
+                return True
+        return False
 
     g = CFG(func, may_raise)
     ends = {g.exit.id, g.raise_exit.id}
